@@ -6,7 +6,7 @@ discipline of the downloader (`DisciplinedRun`: Schedule is called with `from` =
 headers accepted so far; the window length passed to a reservation is at most the cache length).
 `batches` is the list of batches `Results` returned along the run.
 -/
-import YouVerif.C18.ProofsEpoch
+import YouVerif.C18.ProofsLoop
 namespace YouVerif.C18
 
 /-- Results never hands out more than `maxResultsProcess` items. -/
@@ -362,6 +362,49 @@ theorem results_in_order_once_epoch (cacheLen maxProc : Nat) (fast0 : Bool) (off
   rw [hs]
   exact ⟨hret, h1.1, h1.2.2, h2, h3⟩
 
+/-! ### the fetch loop (Downloader.fetchParts) -/
+
+/-- **Progress of the fetch loop.**  `tick` (ModelLoop.lean) is the per-tick order of actions of `fetchParts`:
+expire overdue requests FIRST, then the "nothing more to fetch" check, then throttle-guarded reservation for the idle
+peers.  From every state reachable under the call discipline, rounds of: a tick of the body loop in which every
+in-flight request is overdue and the honest peer `p` (empty lacking set, any capacity > 0) is the idle peer, `p`'s
+correct answer, the same for the receipt loop, `Results` — hand the whole scheduled chain to the importer after as many
+rounds as blocks are outstanding, for every value of the loop's other inputs (`finished`, registered peers, peer
+count ≠ 0, `total`), provided the master peer `m` is not among the stalled ones (else the real loop aborts the sync).
+In particular a stalled request that is the only thing outstanding while the task queue is empty is timed out and its
+work handed to `p` — the tick reaches `expire` before it looks at `pending()`. -/
+theorem fetch_loop_progress (cacheLen maxProc : Nat) (fast : Bool) (offset : Nat) (ops : List Op)
+    (hd : DisciplinedRun (init cacheLen maxProc fast offset) ops) (hc : 0 < cacheLen) (hmp : 0 < maxProc)
+    (m p limit cap : Nat) (fin : Bool) (known : List Nat) (np total : Nat) (hnp : np ≠ 0)
+    (hl0 : 0 < limit) (hl : limit ≤ cacheLen) (hcap : 0 < cap) :
+    let s := run (init cacheLen maxProc fast offset) ops
+    lget s.lacking p = [] → (∀ k, m ∉ allPeersOf s k) →
+    (loopRounds m p limit cap fin known np total (s.sched.length - s.ret.length) s).ret.map (·.header) = s.sched := by
+  intro s hlack hm
+  have hg : Good s := good_run (good_init _ _ _ _) ops hd
+  have hsz := runC_sizes (init cacheLen maxProc fast offset) (ops.map .op)
+  rw [runC_ops] at hsz
+  have hc' : 0 < s.cfg.cacheLen := by rw [show s.cfg.cacheLen = cacheLen from hsz.1]; exact hc
+  have hm' : 0 < s.cfg.maxProc := by rw [show s.cfg.maxProc = maxProc from hsz.2]; exact hmp
+  have hl' : limit ≤ s.cfg.cacheLen := by rw [show s.cfg.cacheLen = cacheLen from hsz.1]; exact hl
+  obtain ⟨g', hs', hlen⟩ := loop_rounds_progress m p limit cap fin known np total hnp
+    (s.sched.length - s.ret.length) s hg hm hc' hm' hl0 hl' hcap hlack
+  have hle := hg.inv.ret_le
+  have hle' := g'.inv.ret_le
+  rw [hs'] at hle'
+  have heq : (loopRounds m p limit cap fin known np total (s.sched.length - s.ret.length) s).ret.length =
+      s.sched.length := by omega
+  have := g'.inv.retEq
+  rw [hs', heq, List.take_length] at this
+  exact this
+
+/-- the tick is what the round is made of: with `p` the only idle peer its effect on the queue is
+"expire the overdue requests, then reserve for `p` unless nothing is queued or the window is full" -/
+theorem tick_expires_before_anything_else (k : Kind) (i : TickIn) (s : State) (p cap : Nat) (hn : i.npeers ≠ 0)
+    (hidle : i.idle = [(p, cap)]) (hm : i.master ∉ i.overdue) :
+    (tick k i s).1 = guardedReserve (expire s k i.overdue).1 k i.limit p cap :=
+  tick_state k i s p cap hn hidle hm
+
 /-! ### non-vacuity: a concrete disciplined run with faults (tests, evaluated by `decide`) -/
 
 instance (s : State) (op : Op) : Decidable (Disciplined s op) := by
@@ -392,5 +435,13 @@ example : ((batches (init 4 2 false 10) demoOps).flatten.map (·.header.num)) = 
 example : (run (init 4 2 false 10) demoOps).failed = false := by decide
 example : ((honestRounds 9 4 3 3 (run (init 4 2 true 10) [.schedule [hdr 10 7, hdr 11 0, hdr 12 9] 10])).ret.map (·.header.num))
     = [10, 11, 12] := by decide
+
+/-- test: a staller holds the tail (queue empty, its request the only thing outstanding); one tick of the model times it
+out and hands the work to the idle honest peer -/
+example :
+    let s0 := run (init 8 4 false 1) [.schedule [hdr 1 5, hdr 2 6] 1, .reserve .body 8 7 2]
+    let t := tick .body { limit := 8, finished := true, npeers := 2, master := 1, overdue := [7], known := [7],
+                          idle := [(1, 2)], total := 2 } s0
+    pendingTasks s0 .body = 0 ∧ (pget (t.1.pools .body).pend 1).isSome = true ∧ t.2.2 = Outcome.cont := by decide
 
 end YouVerif.C18
